@@ -52,11 +52,25 @@ fn build(case: &Case) -> InstRep {
             FnRep::Poly { terms }
         }
     };
-    let mut vars = vec![VarRep::new(EXTRA_VAR, KIND_CONTINUOUS, None)];
+    // Two list layouts (chosen by the parameter's parity) with non-contiguous ids and the maximum not
+    // last, so that fresh-id schemes based on the last element (layout 0: last id 0, 0 + 1 = 1 exists)
+    // or on the list length (layout 1: id nv + 2 exists) collide with an existing variable.
+    let mut fvars = vec![];
     for (id, kind, lo, up) in &case.vars {
         let k = if *id == case.continuous_var { KIND_CONTINUOUS } else { *kind };
         let b = if *kind == KIND_BINARY && *id % 2 == 1 { None } else { Some((*lo as f64, *up as f64)) };
-        vars.push(VarRep::new(*id, k, b));
+        fvars.push(VarRep::new(*id, k, b));
+    }
+    let nv = case.vars.len() as u64;
+    let mut vars = vec![];
+    if case.param % 2 == 1 {
+        vars.push(VarRep::new(EXTRA_VAR, KIND_CONTINUOUS, None));
+        vars.extend(fvars.into_iter().rev());
+        vars.push(VarRep::new(0, KIND_CONTINUOUS, Some((0.0, 1.0))));
+    } else {
+        vars.extend(fvars);
+        vars.push(VarRep::new(EXTRA_VAR, KIND_CONTINUOUS, None));
+        vars.push(VarRep::new(nv + 2, KIND_CONTINUOUS, Some((0.0, 1.0))));
     }
     InstRep {
         sense: SENSE_MIN,
@@ -231,7 +245,14 @@ pub fn check_case(l: &mut Local, case: &Case) {
                 l.violation(&format!("{sig0}/rejected-but-modified"), || json!(case), format!("{sig0} failed ({e}) but modified the instance"));
             }
             if infeasible {
-                if n_sat > 0 {
+                // add_integer_slack_to_inequality analyses f in floating point with threshold exactly 0
+                // (no tolerance): when the minimum of f over the box is 0 up to rounding and the
+                // coefficients are not exactly representable (1/3, -2/3), "can never hold" is true for
+                // the f64 coefficients as they are. Assert only when a point is clearly feasible.
+                let clearly = pts.iter().any(|x| eval_f64(&f_terms, x).unwrap() < -1e-9);
+                if n_sat > 0 && !clearly && !dyadic {
+                    l.bump("boundary_cases_not_asserted", 1);
+                } else if n_sat > 0 {
                     l.violation(
                         &format!("{sig0}/infeasibility-reported-for-satisfiable-constraint"),
                         || json!(case),
